@@ -326,6 +326,66 @@ theorem get_unprefixLoop (pre : String) (R : Row) (d : Dict String) (sk key0 : S
     have := List.mem_filter.mp hk'
     exact h3 k' this.1 (by simpa using this.2)
 
+theorem foldl_unprefix_other (pre : String) (R : Row) (k : String) (l : List String)
+    (acc : Dict String) (h : ∀ k0 ∈ l, removeAll pre k0 ≠ k) :
+    (l.foldl (unprefixStep pre R) acc).get k = acc.get k := by
+  induction l generalizing acc with
+  | nil => rfl
+  | cons a as ih =>
+    simp only [List.foldl_cons]
+    rw [ih _ (fun k0 hk0 => h k0 (by simp [hk0]))]
+    unfold unprefixStep
+    exact Dict.get_set_ne _ _ (fun hh => h a (by simp) hh.symm)
+
+/-- a key no round writes keeps its value -/
+theorem get_unprefixLoop_other (pre : String) (R : Row) (d : Dict String) (k : String)
+    (h : ∀ k0 ∈ d.keys, hasInfix pre k0 = true → removeAll pre k0 ≠ k) :
+    (unprefixLoop pre R d).get k = d.get k := by
+  unfold unprefixLoop
+  apply foldl_unprefix_other
+  intro k0 hk0
+  have := List.mem_filter.mp hk0
+  exact h k0 this.1 (by simpa using this.2)
+
+theorem foldl_unprefix_keys (pre : String) (R : Row) (l : List String) (acc : Dict String) (k : String)
+    (h : k ∈ (l.foldl (unprefixStep pre R) acc).keys) :
+    k ∈ acc.keys ∨ ∃ k0 ∈ l, removeAll pre k0 = k := by
+  induction l generalizing acc with
+  | nil => exact Or.inl h
+  | cons a as ih =>
+    simp only [List.foldl_cons] at h
+    rcases ih _ h with h1 | ⟨k0, hk0, hk⟩
+    · unfold unprefixStep at h1
+      simp only [Dict.keys_set, List.mem_cons] at h1
+      rcases h1 with h1 | h1
+      · exact Or.inr ⟨a, by simp, h1.symm⟩
+      · exact Or.inl h1
+    · exact Or.inr ⟨k0, by simp [hk0], hk⟩
+
+theorem foldl_unprefix_keys_mono (pre : String) (R : Row) (l : List String) (acc : Dict String)
+    (k : String) (h : k ∈ acc.keys) : k ∈ (l.foldl (unprefixStep pre R) acc).keys := by
+  induction l generalizing acc with
+  | nil => exact h
+  | cons a as ih =>
+    simp only [List.foldl_cons]
+    apply ih
+    unfold unprefixStep
+    simp [Dict.keys_set, h]
+
+/-- the keys after the loop: the old ones and the un-prefixed images of those containing the prefix -/
+theorem keys_unprefixLoop_sub (pre : String) (R : Row) (d : Dict String) (k : String)
+    (h : k ∈ (unprefixLoop pre R d).keys) :
+    k ∈ d.keys ∨ ∃ k0 ∈ d.keys, hasInfix pre k0 = true ∧ removeAll pre k0 = k := by
+  unfold unprefixLoop at h
+  rcases foldl_unprefix_keys pre R _ d k h with h1 | ⟨k0, hk0, hk⟩
+  · exact Or.inl h1
+  · have := List.mem_filter.mp hk0
+    exact Or.inr ⟨k0, this.1, by simpa using this.2, hk⟩
+
+theorem keys_unprefixLoop_mono (pre : String) (R : Row) (d : Dict String) (k : String)
+    (h : k ∈ d.keys) : k ∈ (unprefixLoop pre R d).keys :=
+  foldl_unprefix_keys_mono pre R _ d k h
+
 /-! ### method keys and the global dictionaries -/
 
 theorem mem_methKeys (methods ps : List String) (me p : String) :
@@ -466,6 +526,14 @@ abbrev Tables.UnprefixOK (tb : Tables) : Prop :=
         removeAll (tb.prefixOf rep) k' = sk → k' = tb.prefixOf rep ++ sk) ∧
     (∀ k' ∈ tb.globalPlain, hasInfix (tb.prefixOf rep) k' = true →
         removeAll (tb.prefixOf rep) k' ≠ tb.prefixOf rep ++ sk)
+
+/-- the two sources of a two-kind placeholder component share one dictionary: what the repairable
+source's un-prefixing writes into it is invisible to the non-repairable source -/
+abbrev Tables.SharedOK (tb : Tables) : Prop :=
+  (∀ k ∈ tb.globalPlain, hasInfix tb.repPrefix k = true →
+      hasInfix tb.nonRepPrefix (removeAll tb.repPrefix k) = false) ∧
+  (∀ k ∈ tb.globalPlain, hasInfix tb.repPrefix k = true →
+      ∀ sk ∈ tb.srcKeysFor false, removeAll tb.repPrefix k ≠ tb.nonRepPrefix ++ sk)
 
 abbrev Tables.WF (tb : Tables) : Prop := tb.SameKeys ∧ tb.ScaleOK ∧ tb.PopsOK ∧ tb.UnprefixOK
 
